@@ -259,6 +259,15 @@ impl<
         }
     }
 
+    /// Returns true if the entry stored under `key` belongs to another key, i.e. one with
+    /// the same index hash but a different conflict hash.
+    pub fn held_by_other(&self, key: &u64, conflict: u64) -> bool {
+        self.shards[(*key as usize) % NUM_OF_SHARDS]
+            .read()
+            .get(key)
+            .map_or(false, |item| conflict != 0 && conflict != item.conflict)
+    }
+
     pub fn expiration(&self, key: &u64) -> Option<Time> {
         self.shards[((*key) as usize) % NUM_OF_SHARDS]
             .read()
